@@ -247,21 +247,41 @@ pub fn dump_value(c: &jbk::reader::Container, s: &DumpScn) -> J {
                 }
             };
             let vnames = entries::variant_names(&store);
+            let n = index.count().into_u32();
+            let (from, to) = match s.entry_window {
+                Some((a, b)) => (std::cmp::min(a, n), std::cmp::min(b, n)),
+                None => (0, std::cmp::min(n, 100_000)),
+            };
+            // every entry through the typed property builders, whatever the generic builder says (a panic is recorded, not fatal)
+            let mut typed = vec![];
+            if let Ok(st) = index.get_store(c.get_entry_storage()) {
+                for i in from..to {
+                    let t = catch(|| {
+                        entries::typed_values_any(
+                            &st,
+                            c.get_value_storage().as_ref(),
+                            index.offset() + jbk::EntryIdx::from(i),
+                        )
+                    });
+                    typed.push(match t {
+                        Ok(Some(m)) => J::Object(m),
+                        Ok(None) => json!("none"),
+                        Err(p) => json!({"panic": p}),
+                    });
+                }
+            }
             let builder = match jbk::reader::builder::AnyBuilder::new(
                 store,
                 c.get_value_storage().as_ref(),
             ) {
                 Ok(b) => b,
                 Err(e) => {
-                    return Ok(json!({"name": name, "res": "err", "err": format!("builder: {e}")}))
+                    return Ok(
+                        json!({"name": name, "res": "err", "err": format!("builder: {e}"), "typedEntries": typed, "entriesFrom": from}),
+                    )
                 }
             };
-            let n = index.count().into_u32();
             let mut es = vec![];
-            let (from, to) = match s.entry_window {
-                Some((a, b)) => (std::cmp::min(a, n), std::cmp::min(b, n)),
-                None => (0, std::cmp::min(n, 100_000)),
-            };
             for i in from..to {
                 match index.get_entry(&builder, jbk::EntryIdx::from(i)) {
                     Ok(Some(e)) => match entries::entry_json(&e, &s.props, &vnames) {
@@ -273,7 +293,7 @@ pub fn dump_value(c: &jbk::reader::Container, s: &DumpScn) -> J {
                 }
             }
             Ok(
-                json!({"name": name, "res": "ok", "count": n, "offset": index.offset().into_u32(), "entries": es, "entriesFrom": from}),
+                json!({"name": name, "res": "ok", "count": n, "offset": index.offset().into_u32(), "entries": es, "entriesFrom": from, "typedEntries": typed}),
             )
         });
         idxs.push(match r {
